@@ -891,6 +891,9 @@ def comprehension(it, fr, e, kind):
     gens = e.generators
     first = it.eval(fr, gens[0].iter)
     conc = try_iterate(it, first)
+    if conc is None and it.run.bounded and isinstance(first, SymList):
+        it.concretize_len(first)
+        conc = try_iterate(it, first)
     if conc is None and isinstance(first, SymList) and len(gens) == 1:
         if kind == 'gen':
             return LazyGen(it, fr, e, first)
@@ -918,6 +921,7 @@ def comprehension(it, fr, e, kind):
 
     rec(0, E.Frame(fr.mod, {}, parent=fr))
     if kind == 'list':
+        it.run.filters = getattr(it.run, 'filters', []) + [list(out)]
         return out
     if kind == 'gen':
         return GenObj(out)
@@ -1242,6 +1246,16 @@ def subscript(it, base, idx):
         return base.get(pos)
     if isinstance(base, (list, tuple, str)):
         if isinstance(idx, slice):
+            if z3.is_expr(idx.stop) and idx.start in (None, 0) and idx.step is None and not isinstance(base, str):
+                # concrete spine, symbolic upper bound: fork over the resulting length
+                hi = idx.stop
+                n = len(base)
+                for k in range(n):
+                    if it.truth(zor(hi == k, hi == k - n)):
+                        return base[:k]
+                if it.truth(hi >= n):
+                    return base[:n]
+                return base[:0]
             if any(z3.is_expr(x) for x in (idx.start, idx.stop, idx.step)):
                 raise Unsupported('symbolic slice of concrete sequence')
             return base[idx]
@@ -1673,7 +1687,8 @@ def value_getattr(it, v, a):
             def update(it_, args, kw):
                 if args:
                     src = args[0]
-                    for k, x in (src.items() if isinstance(src, PyDict) else [tuple(iterate(it_, kv)) for kv in iterate(it_, src)]):
+                    mp = mapping_items_hook(it_, src)   # dict.update(mapping object): keys() + __getitem__ (CPython semantics)
+                    for k, x in (mp if mp is not MISSING else src.items() if isinstance(src, PyDict) else [tuple(iterate(it_, kv)) for kv in iterate(it_, src)]):
                         v.set(it_, k, x)
                 for k, x in kw.items():
                     v.set(it_, k, x)
@@ -1764,6 +1779,11 @@ def value_getattr(it, v, a):
 
 
 def value_getattr_hook(it, v, a):
+    return MISSING
+
+
+def mapping_items_hook(it, src):
+    """[(key, value)] of a mapping *object* passed to dict.update(), or MISSING (extension hook)."""
     return MISSING
 
 
